@@ -216,3 +216,17 @@ PROPS["C18"] = {
     "level_text": "Machine-checked Lean 4 theorems: recordFirstSeen_same (same plan: nothing written, stored first-seen time used — for any world, hence after any number of attempts and restarts), recordFirstSeen_new (a different plan records id and time and commits at once; afterwards the store reads back exactly that id and the microsecond-truncated time with nothing pending, so a crash cannot lose it), crash_keeps_committed, firstSeenMetric_value; installSuccess_spec (the counter is touched iff some app failed, else iff some app installed — over all result vectors), reportAttemptsInstall_spec / _first (reported count = stored + 1, stored on failure, removed on success); recordFinish_order + setTargetVersion_spec (finish time, the system app's manifest version or UNKNOWN, and a commit all precede the reboot-needed question, and with C05's gates any reboot); runStart_shouldReport (pending iff finish time readable and target version = running OS version), reportWaited_spec (value and the three clock-consistency guards), waited_independent_of_delay (equals start-wall − finish whenever both clocks advanced equally since start), waitedStep_spec (on success: metric, both keys removed, commit, flag cleared so never again; otherwise nothing reported, nothing removed, retried next iteration). Tied to state_machine.rs by the per-unit differential run incl. restarts.",
     "level_note": "Trusted: Lean kernel; the hand-written state-machine and storage model; harness and diff.",
 }
+
+PROPS["C14"] = {
+    "lean_modules": ["Omaha.Props.C14"],
+    "streams": sm_stream([r"H ", r"E ", [r"Z ", []]]) + [
+        {"name": "smfault", "file": "smfault", "args": ["smfault"]},
+        {"name": "resp", "file": "resp", "args": ["resp"], "outside_ok": True},
+        {"name": "uri", "file": "uri", "args": ["uri"], "outside_ok": True}],
+    "rule": SM_RULE + "; storage is preloaded with values of every type and magnitude (wrong type, negative, 0, u32 and i64 extremes) on every key the library reads, up to 14 storage operations per unit fail according to a random mask, the wall clock jumps backwards / far into the future between interactions, responses are arbitrary (unparseable, truncated, forged incl. degenerate ETag header values, any status), service URLs may be invalid; every history runs under catch_unwind and a panic is a disagreement; projection (sm): every request and every event, and how the unit ended. Stream smfault runs each history twice against the real state machine — with the scripted storage failures and with a working storage — and requires identical request and event sequences. Streams resp and uri feed arbitrary bytes to the response parser and URL decoration (panic = disagreement)",
+    "trusted_extra": SM_TRUSTED + ["panic-freedom of third-party parsers (serde_json, http::Uri) and stack safety are tested by the correspondence runs, not proved; the Lean model is total by construction"],
+    "assumptions": ["a wrapping `as u64` cast of a negative stored install-attempt count is not a violation (no trap, no lost result)",
+                    "metrics are not part of 'requests sent and events announced': values read back from storage flow into two metrics only (first-seen duration, install-attempt count)"],
+    "level_text": "Machine-checked Lean 4 theorems: storage_failures_invisible (one iteration of run: from Sim-related worlds — same context, apps, clock, scripts; arbitrary storage contents — two runs that differ in which storage operations fail end the same way in Sim-related worlds, i.e. with equal visible traces), faulty_run_looks_healthy, storage_failures_invisible_oneshot, storage_failures_invisible_history (any number of iterations, any failure script in each: by induction); they rest on Lemmas/SMSim: the simulation relation Sim, invisibility of every storage/metric-only step (inv_*) and congruence of every model function (sim_*: ~50 lemmas up to runUnit, incl. the attempt loop and the reboot-wait loop by induction). Range invariants: satAdd32_le, loadFails_le, loadCtx_failures_le, failures_in_range_check / _ping (the u32 failure counter never leaves u32 for any stored value and any history step), attemptsInstall_in_range (the i64 install-attempt counter is written back as an i64 and reported as a u64 for every stored i64), durationMs_le, loadPoll_range, poll_header_le_day; check_delivers_result (every check ends with exactly one result). Tied to the code by the per-unit differential run under catch_unwind with hostile storage contents, failure masks, clock jumps and response bytes, and by the implementation-vs-implementation faulty/healthy stream.",
+    "level_note": "Trusted: Lean kernel; the hand-written state-machine model; harness and diff. Two genuine defects found here were repaired upstream (KNOWN_FINDINGS.txt: fixed e81f7d7, 56a473c). Absence of panics inside serde_json / http / p256 is sampled, not proved.",
+}
